@@ -335,4 +335,15 @@ theorem tie_PlanningProblemSet (m : Mo) (l : List Problem) : Gen.PlanningProblem
   simp only [Gen.PlanningProblemSet_translate_rotate, moveProblems, forEach_eq_mapR]
   try (cases h2 : mapR (Problem.move m) l <;> simp [bind, Except.bind, pure, Except.pure, h2])
 
+/-! ### structural tie: which attributes each in-place `translate_rotate` of the CURRENT source touches
+
+  `Gen.C05_movedTable` is extracted from the `ast` on every run.  The table is finite and checked completely by `decide`, which
+  is a proof for that table: every world-frame attribute the model records list is assigned / moved / walked by the method of
+  its class (a dropped field breaks the first theorem), and no body-frame attribute is (an over-moved body shape breaks the
+  second). -/
+
+theorem tie_moved_table_covers : fieldsCovered spatialFields Gen.C05_movedTable = true := by decide +kernel
+
+theorem tie_moved_table_avoids_body : fieldsAvoided bodyFields Gen.C05_movedTable = true := by decide +kernel
+
 end CR.Rigid
